@@ -199,14 +199,23 @@ def check(ax, case, rec):
             rec.label("scale=0")
         first = vals if not c["preload"] else rng.uniform(-1, 1, ncomp) * np.array([1, 1, 0 if axi else 1])[:ncomp]
         if ax == "gravity":
-            it = fem.SolidBodyGravity(fc, gravity=first.tolist(), density=scale)
+            g0 = first.tolist()
+            if c["preload"] and (c["lseed"] // 5 + ncomp) % 2:
+                # whole-number start values as Python integers (gravity=[0, 0, -10]); the values that follow by update() are not whole
+                g0 = [int(round(4 * v_)) for v_ in first]
+                rec.label("integer-typed-start-values")
+            it = fem.SolidBodyGravity(fc, gravity=g0, density=scale)
         elif c["preload"] and c["lseed"] % 2 and ncomp == fc.fields[0].dim:
             # created with the default values (zeros, one per field component): assembles to zero, values follow by update()
             it = fem.SolidBodyForce(fc, scale=scale)
             r_def = np.asarray(it.assemble.vector(fc).toarray()).ravel()
             rec.close("default-values-assemble-to-zero", float(np.abs(r_def).max()), 0.0)
         else:
-            it = fem.SolidBodyForce(fc, values=first.tolist(), scale=scale)
+            f0 = first.tolist()
+            if c["preload"] and (c["lseed"] // 5 + ncomp) % 2:
+                f0 = [int(round(4 * v_)) for v_ in first]
+                rec.label("integer-typed-start-values")
+            it = fem.SolidBodyForce(fc, values=f0, scale=scale)
         if c["preload"]:
             # values changed through update() (what a Step does for ramped items): density / scale must be kept
             it.assemble.vector(fc)
@@ -392,6 +401,12 @@ def check(ax, case, rec):
             body = mk(density=2.5 * rho + 0.3)
             M = body.assemble.mass(density=rho)
         rec.label(("stored-density", "density-argument", "argument-overrides-stored-density")[variant])
+        if c["lseed"] % 2:
+            # asked a second time with another density: the matrix is that of the density of this call
+            M_first = np.asarray(M.toarray()).copy()
+            rho = 0.5 * rho + 0.7
+            M = body.assemble.mass(density=rho)
+            rec.label("second-call-with-another-density")
         M = np.asarray(M.toarray())
         n0 = fc.fields[0].values.size
         rec.require("mass-shape", M.shape == (n0, n0), M.shape)
